@@ -172,6 +172,26 @@ def identity_programs():
             body.append(["try", [echo("t%d;" % i), ["expr", ["assign", "r", rz]], echo("never")], [[T, "e", [echo("<%s>" % T)]]], [echo("f;")]])
         out.append({"classes": CLASSES, "ifaces": IFACES, "funcs": [f3, req],
                     "main": [["try", body, [["Throwable", None, [echo("outer;")]]], [echo("F")]]]})
+    # two catch variables bound to the SAME thrown object are identical (===, !==, ==): the object is held in an ordinary variable and
+    # thrown twice, rethrown from a nested try, thrown from a function and from a finally block; a second object of the same class
+    # and message stays different
+    cmp2 = lambda x, y: [["if", ["same", var(x), var(y)], [echo(" %s===%s" % (x, y))], [], [echo(" %s!==%s" % (x, y))]],
+                         ["if", ["not", ["same", var(x), var(y)]], [echo(" N")], [], [echo(" Y")]],
+                         ["if", ["bin", "Eq", var(x), var(y)], [echo(" eq")], [], [echo(" ne")]]]
+    thrower = {"name": "again", "params": [["o", None]], "body": [["throw", var("o")]]}
+    viafin = {"name": "viafin", "params": [["o", None]], "body": [["try", [echo("(t)")], [], [["throw", var("o")]]], ["return", lit(0)]]}
+    routes = {"twice": lambda: ["throw", var("o")], "function": lambda: ["expr", ["call", "again", [var("o")]]],
+              "finally": lambda: ["expr", ["call", "viafin", [var("o")]]],
+              "nested-rethrow": lambda: ["try", [["throw", var("o")]], [["E1", "inner", [["throw", var("inner")]]]], [echo("{f}")]]}
+    for r1 in routes:
+        for r2 in routes:
+            main = [["expr", ["assign", "o", ["new", "E2", lit("same")]]], ["expr", ["assign", "p", ["new", "E2", lit("same")]]],
+                    ["try", [routes[r1]()], [["E1", "e", [["expr", ["assign", "first", var("e")]], echo("c1;")]]], None],
+                    ["try", [routes[r2]()], [["Exception", "e", [["expr", ["assign", "second", var("e")]], echo("c2;")]]], None]]
+            main += cmp2("first", "second") + cmp2("first", "o") + cmp2("second", "first") + cmp2("first", "p")
+            main += [["try", [["throw", var("p")]], [["E2", "e3", cmp2("e3", "first") + cmp2("e3", "p")]], None]]
+            main += [tag(" n=", ["prop", var("first")]), ["expr", ["setprop", var("second"), lit(8)]], tag(" n=", ["prop", var("first")]), tag(" n=", ["prop", var("o")])]
+            out.append(dict(base, funcs=[thrower, viafin], main=main))
     # every exception object has ITS OWN message: several live objects of the same class, of a parent and a child class and of the
     # built-in Exception, read in every order, thrown oldest-first and newest-first (/repo a00cfd0: one message per class)
     mk = lambda x, cl, m: ["expr", ["assign", x, ["new", cl, lit(m)]]]
@@ -801,6 +821,30 @@ def malformed_header_cases():
             except _Bad:
                 verdicts = [(0, "")]
             out.append(("t%d:%s" % (ti, lab), MUT_DECL + " ".join(mt) + "\n", verdicts))
+    # clause ORDER, duplicates and missing parts: every sequence of up to four clauses drawn from {catch (E1), catch (E2 | Exception),
+    # finally} after a try block (and after nothing: a bare catch / finally), for a body that throws E2 and one that does not.  Only
+    # `try block, catch*, finally?` with at least one clause is a program; a catch after finally, a second finally, a clause without try
+    # are parse errors: non-zero exit, nothing executed.
+    import itertools
+    clause = {"C1": 'catch ( E1 $e ) { echo "c1;" ; }', "C2": 'catch ( E2 | Exception $x ) { echo "c2;" ; }', "F": 'finally { echo "f;" ; }'}
+    for body in ('{ echo "t;" ; throw new E2 ( "m" ) ; }', '{ echo "t;" ; }'):
+        for n in range(0, 5):
+            for seq in itertools.product(("C1", "C2", "F"), repeat=n):
+                for head in (("try " + body), ""):
+                    if head == "" and (n == 0 or n > 2):
+                        continue
+                    text = ('echo "a;" ; ' + head + " " + " ".join(clause[c] for c in seq) + ' echo "z;" ;').replace("  ", " ")
+                    if text in seen:
+                        continue
+                    seen.add(text)
+                    mt = text.split(" ")
+                    try:
+                        ast, bare = _mut_parse(mt)
+                        so, unc = _mut_run(ast)
+                        verdicts = [(1 if unc else 3, so)] + ([(0, "")] if bare else [])
+                    except _Bad:
+                        verdicts = [(0, "")]
+                    out.append(("order:%s:%s" % ("try" if head else "bare", "".join(seq) or "-"), MUT_DECL + text + "\n", verdicts))
     return out
 
 
@@ -856,6 +900,14 @@ def cli_cases():
                       "finally { if ($k > 0) { echo \"in:\", R::down($k - 1), \";\"; } } } }\n"
                       "$t = new R(\"outer\", new R(\"middle\", new R(\"inner\")));\necho $t->close(), \"|\", R::down(2);\n",
                 "f:outer;f:middle;f:inner;child:closed inner;child:closed middle;closed outer|in:in:ret k0;ret k1;ret k2"))
+    # the same object caught twice has one spl_object_id and is === through both catch variables
+    out.append((3, 0, "<?php\nclass E extends Exception {}\n$o = new E(\"m\"); $p = new E(\"m\");\n"
+                      "try { throw $o; } catch (E $e) { $first = $e; }\ntry { throw $o; } catch (Exception $e) { $second = $e; }\n"
+                      "try { throw $p; } catch (E $e) { $third = $e; }\n"
+                      "echo ($first === $second) ? \"same;\" : \"diff;\", ($first !== $second) ? \"N;\" : \"Y;\", ($first == $second) ? \"eq;\" : \"ne;\", "
+                      "(spl_object_id($first) === spl_object_id($second)) ? \"id=;\" : \"id!;\", (spl_object_id($first) === spl_object_id($o)) ? \"ido=;\" : \"ido!;\", "
+                      "($first === $third) ? \"same3;\" : \"diff3;\", (spl_object_id($first) === spl_object_id($third)) ? \"id3=;\" : \"id3!;\";\n",
+                "same;Y;eq;id=;ido=;diff3;id3!;"))
     # catch clauses naming an undeclared class / a fully qualified built-in
     out.append((3, 0, "<?php\necho \"out;\";\ntry { throw new Exception(\"x\"); } catch (Undeclared $e) { echo \"wrong;\"; } "
                       "catch (\\Exception $e) { echo \"ns;\"; }\ntry { throw new Exception(\"y\"); } catch (\\Throwable $e) { echo \"thr;\"; }\n",
